@@ -177,6 +177,7 @@ class VM:
         self.start_time: Optional[float] = None
         self.instruction_count = 0
         self.memory_base = 0  # bytes already accounted by enclosing VMs (nested eval)
+        self.propagate_uncaught = False  # nested eval: uncaught throws go to the caller
 
         # Exception handling
         self.exception: Optional[JSValue] = None
@@ -2538,6 +2539,9 @@ class VM:
 
             # Push exception value
             self.stack.append(exc)
+        elif self.propagate_uncaught:
+            # Nested eval()/Function() code: the enclosing interpreter goes on unwinding
+            raise _PendingThrow(exc)
         else:
             # Uncaught exception
             if isinstance(exc, str):
